@@ -21,6 +21,8 @@ import (
 
 var registry = map[string]map[string]func() any{}
 
+var lastDocs []string
+
 // Register is called from the init function of every generated package.
 func Register(pkg string, ctors map[string]func() any) { registry[pkg] = ctors }
 
@@ -32,6 +34,18 @@ type Task struct {
 	Mode  string `json:"m"` // json yaml method-json method-yaml
 	Doc   string `json:"d"`
 	Prior string `json:"q,omitempty"` // JSON document decoded into the destination first (C19)
+	// bulk mode (C19): every document is tried on a fresh destination prepared from every prior ("" = zero value)
+	Docs   []string `json:"ds,omitempty"`
+	Priors []string `json:"qs,omitempty"`
+	Same   bool     `json:"sm,omitempty"` // bulk: reuse the documents of the previous bulk task
+}
+
+// Bad is one noteworthy bulk observation.
+type Bad struct {
+	Doc     int    `json:"d"`
+	Prior   int    `json:"q"` // -1 = zero value
+	Panic   string `json:"p,omitempty"`
+	Changed string `json:"c,omitempty"`
 }
 
 // Obs is what happened.
@@ -45,6 +59,11 @@ type Obs struct {
 	Changed string          `json:"c,omitempty"`
 	Skip    string          `json:"s,omitempty"`
 	Methods []string        `json:"ms,omitempty"`
+	// bulk mode
+	N      int   `json:"n,omitempty"`  // calls made
+	NErr   int   `json:"ne,omitempty"` // calls that returned an error
+	OKDocs []int `json:"ok,omitempty"` // documents accepted on the zero destination
+	Bads   []Bad `json:"b,omitempty"`
 }
 
 // AdditionalKey mirrors refmodel.AdditionalKey.
@@ -94,7 +113,16 @@ func Main() {
 		if err := dec.Decode(&t); err != nil {
 			return
 		}
-		o := run(&t)
+		var o *Obs
+		if t.Same {
+			t.Docs = lastDocs
+		}
+		if len(t.Docs) > 0 {
+			lastDocs = t.Docs
+			o = bulk(&t)
+		} else {
+			o = run(&t)
+		}
 		if err := enc.Encode(o); err != nil {
 			fmt.Fprintln(os.Stderr, "drv: encode:", err)
 			os.Exit(3)
@@ -338,4 +366,39 @@ func walk(sb *strings.Builder, v reflect.Value, depth int) {
 	default:
 		sb.WriteString(quote("<" + v.Kind().String() + ">"))
 	}
+}
+
+// bulk runs every document against every prior destination and reports only panics and modified-on-error cases.
+func bulk(t *Task) *Obs {
+	o := &Obs{I: t.I}
+	priors := append([]string{""}, t.Priors...)
+	for qi, q := range priors {
+		for di, d := range t.Docs {
+			one := Task{I: t.I, Pkg: t.Pkg, Type: t.Type, Mode: t.Mode, Doc: d, Prior: q}
+			r := run(&one)
+			if r.Skip != "" {
+				if strings.HasPrefix(r.Skip, "prior") || strings.HasPrefix(r.Skip, "not YAML") {
+					continue
+				}
+				o.Skip = r.Skip
+				return o
+			}
+			o.N++
+			if r.Err != "" {
+				o.NErr++
+			} else if r.Panic == "" && qi == 0 {
+				o.OKDocs = append(o.OKDocs, di)
+			}
+			if r.Panic != "" || r.Changed != "" {
+				if len(o.Bads) < 50 {
+					p := r.Panic
+					if len(p) > 600 {
+						p = p[:600]
+					}
+					o.Bads = append(o.Bads, Bad{Doc: di, Prior: qi - 1, Panic: p, Changed: r.Changed})
+				}
+			}
+		}
+	}
+	return o
 }
